@@ -358,3 +358,62 @@ Proof.
   intros order p P. split; [eapply scatter_is_inverse_order; exact P|apply fdr_with_scatter_eq; exact P].
 Qed.
 Print Assumptions scatter_is_inverse_permutation.
+
+(* ================================================================== the cache of a Contrast object *)
+From NV.C06 Require Import ProofsM.
+(* (S1) as coded (fmri.glm.Contrast and labs.glm.contrast share this logic): for
+   EVERY sequence of stat / p_value / z_score calls at arbitrary baselines mixed
+   with scalar multiplications and additions, every stat() and every p_value()
+   result is the value computed from the object's current contents at the
+   requested baseline (run_pure). *)
+Theorem contrast_cache_stat_and_p_always_pure :
+  forall c ops, Forall2 stat_p_ok (run false (init_state c) ops) (run_pure c ops).
+Proof. intros c ops. apply (run_stat_p_pure false ops (init_state c)). apply inv_st_init. Qed.
+Print Assumptions contrast_cache_stat_and_p_always_pure.
+
+(* (S2) as coded: if stat() is never called directly (only p_value / z_score / * / +),
+   z_score() too is always the pure value. *)
+Theorem contrast_cache_pure_without_direct_stat :
+  forall c ops, no_direct_stat ops ->
+  Forall2 obs_equiv (run false (init_state c) ops) (run_pure c ops).
+Proof.
+  intros c ops H. apply (run_all_pure false ops (or_intror H) (init_state c));
+    [apply inv_st_init|apply inv_pv_init].
+Qed.
+Print Assumptions contrast_cache_pure_without_direct_stat.
+
+(* (S3) FINDING state/stale-baseline/*/z_score: as coded, stat(b') does not drop the
+   cached p-value, so p_value(0); stat(1); z_score(1) returns the z-score of baseline 0. *)
+Theorem contrast_cache_z_pure_refuted :
+  exists c ops, ~ Forall2 obs_equiv (run false (init_state c) ops) (run_pure c ops).
+Proof.
+  exists (CBase 0), [OPval 0; OStat 1; OZ 1]. simpl. intros H.
+  inversion H as [|? ? ? ? _ H1]; subst. inversion H1 as [|? ? ? ? _ H2]; subst.
+  inversion H2 as [|? ? ? ? H3 _]; subst. simpl in H3. destruct H3 as [[_ E] _]. simpl in E. discriminate.
+Qed.
+Print Assumptions contrast_cache_z_pure_refuted.
+
+(* (S4) the repaired machine (stat() drops the cached p-value; reports/C06-fix-2.diff):
+   every observable of every operation sequence is the pure value. *)
+Theorem contrast_cache_fixed_all_pure :
+  forall c ops, Forall2 obs_equiv (run true (init_state c) ops) (run_pure c ops).
+Proof.
+  intros c ops. apply (run_all_pure true ops (or_introl eq_refl) (init_state c));
+    [apply inv_st_init|apply inv_pv_init].
+Qed.
+Print Assumptions contrast_cache_fixed_all_pure.
+
+(* (S5) the machine of the CURRENT source (the flag `stat() drops the cached p-value`
+   is translated from glm.py by harness/translate/zclip.py): stat and p_value are
+   pure for every sequence; z_score as well as soon as the flag is set. *)
+Theorem contrast_cache_current_source :
+  forall flag, flag = fmri_stat_drops_pvalue \/ flag = labs_stat_drops_pvalue ->
+  forall c ops,
+  Forall2 stat_p_ok (run flag (init_state c) ops) (run_pure c ops) /\
+  (flag = true -> Forall2 obs_equiv (run flag (init_state c) ops) (run_pure c ops)).
+Proof.
+  intros flag _ c ops. split.
+  - apply (run_stat_p_pure flag ops (init_state c)). apply inv_st_init.
+  - intros ->. apply contrast_cache_fixed_all_pure.
+Qed.
+Print Assumptions contrast_cache_current_source.
